@@ -38,3 +38,83 @@ impl<K, V> DerefMut for AHashMap<K, V> {
         &mut self.0
     }
 }
+
+/// `ahash::RandomState` with fixed keys
+#[derive(Clone, Debug, Default)]
+pub struct RandomState(FixedState);
+
+impl RandomState {
+    pub fn new() -> RandomState {
+        RandomState(FixedState::default())
+    }
+    pub fn with_seed(_seed: usize) -> RandomState {
+        RandomState::new()
+    }
+    pub fn with_seeds(_a: u64, _b: u64, _c: u64, _d: u64) -> RandomState {
+        RandomState::new()
+    }
+}
+
+impl std::hash::BuildHasher for RandomState {
+    type Hasher = DefaultHasher;
+    fn build_hasher(&self) -> DefaultHasher {
+        self.0.build_hasher()
+    }
+}
+
+pub type AHasher = DefaultHasher;
+
+#[derive(Debug, Clone)]
+pub struct AHashSet<K>(std::collections::HashSet<K, FixedState>);
+
+impl<K> AHashSet<K> {
+    pub fn new() -> Self {
+        AHashSet(std::collections::HashSet::with_hasher(FixedState::default()))
+    }
+    pub fn with_capacity(capacity: usize) -> Self {
+        AHashSet(std::collections::HashSet::with_capacity_and_hasher(capacity.min(1024), FixedState::default()))
+    }
+}
+
+impl<K> Default for AHashSet<K> {
+    fn default() -> Self {
+        Self::new()
+    }
+}
+
+impl<K> Deref for AHashSet<K> {
+    type Target = std::collections::HashSet<K, FixedState>;
+    fn deref(&self) -> &Self::Target {
+        &self.0
+    }
+}
+
+impl<K> DerefMut for AHashSet<K> {
+    fn deref_mut(&mut self) -> &mut Self::Target {
+        &mut self.0
+    }
+}
+
+impl<K: std::hash::Hash + Eq, V> FromIterator<(K, V)> for AHashMap<K, V> {
+    fn from_iter<I: IntoIterator<Item = (K, V)>>(it: I) -> Self {
+        let mut m = AHashMap::new();
+        m.extend(it);
+        m
+    }
+}
+
+impl<K, V> IntoIterator for AHashMap<K, V> {
+    type Item = (K, V);
+    type IntoIter = std::collections::hash_map::IntoIter<K, V>;
+    fn into_iter(self) -> Self::IntoIter {
+        self.0.into_iter()
+    }
+}
+
+impl<'a, K, V> IntoIterator for &'a AHashMap<K, V> {
+    type Item = (&'a K, &'a V);
+    type IntoIter = std::collections::hash_map::Iter<'a, K, V>;
+    fn into_iter(self) -> Self::IntoIter {
+        self.0.iter()
+    }
+}
